@@ -41,11 +41,37 @@ def check(src, rep):
     emit(rep, m, eg, RULE, only=lambda r: r.tag != "trip" or r.instance in ("no-hunt", "lines-kept") or r.kind == "ok")
     emit(rep, m, skeleton(m), RULE)
     emit(rep, m, buffer_contracts(m), RULE)
+    _initial_state(rep, m)
     from sa.cross import include
     include(rep, src, "C04", {"R1", "R2", "R3", "R4", "R5"}, "R5", "every delivered well-formed readout is reported valid")
     include(rep, src, "C14", {"R1"}, "R6", "read() returns the readouts of a clean stream instead of raising", at_prefix=("dlde.",))
     rep.floor("reference rows", sum(1 for r in conf if r.tag.startswith("row:")), 5)
     rep.floor("line step paths", len(m.paths), 6)
+
+
+def _initial_state(rep, m):
+    """a reader constructed the way the library constructs it (no arguments) hunts for a start line: what precedes the first '/' is the tail of a readout it joined half-way"""
+    from sa.abseval import AbsEval, AbsRaise, SymbolicBranch
+    from sa.consteval import NotConstant
+    A = AbsEval(m.M)
+    prop = m.reader.methods.get("is_in_hunt_mode")
+    if prop is None:
+        rep.undecide("R1 initial state: ModeDReader.is_in_hunt_mode vanished")
+        return
+    try:
+        obj = A.instantiate((m.reader.mod, m.reader.name), [])
+    except (AbsRaise, NotConstant, SymbolicBranch, RecursionError) as ex:
+        rep.undecide(f"R1 initial state: ModeDReader() is outside the interpreted subset: {ex}")
+        return
+    r = A.apply(prop, [obj])
+    if r[0] != "value" or not isinstance(r[1], bool):
+        rep.undecide(f"R1 initial state: is_in_hunt_mode of a new reader is not a constant: {r[1]!r}")
+    elif r[1] is not True:
+        init = m.M.find_method((m.reader.mod, m.reader.name), "__init__")
+        rep.violation("R1", "dlde.ModeDReader.__init__", "initial-state", "a new reader does not hunt for a start line: lines received before the first '/' (the tail of a readout the reader joined half-way) "
+                      "are collected as the beginning of a readout", m.file, init.node.lineno if init else m.reader.node.lineno, witness="ModeDReader().is_in_hunt_mode is False")
+    else:
+        rep.ok("R1", "initial state", "ModeDReader() starts in hunt mode (constructor interpreted, is_in_hunt_mode read through the public property)")
 
 
 def thorough(src, rep):
